@@ -10,6 +10,28 @@ CLAIMED = {
          'over every code constant (D4), and the legacy Reader::validation_state arm is checked for trusted-credential evidence (D5).'),
    note='Undecided: nothing essential (function is all shape). Trusted base: ' + TRUSTED,
    design='5/C04'),
+ 'C01': dict(
+   technique='MIR guarded-effect dominance + failing-edge obligations + log code/kind table agreement',
+   text=('Decides the verdict plumbing of hard-binding validation on all paths: success codes only on the Ok edge of the matching verifier, '
+         'every verifier Err edge reaches a Failure log or Err, leaf verifiers return Ok only after the hash comparison, verify_store passes '
+         'verify_hash_binding on the binding claim, box-hash verification exhausts the handler box list, log kinds agree with log_kind(code). '
+         'Does NOT decide which bytes the hashes cover.'),
+   note='Undecided: exclusion/offset arithmetic, box maps, BMFF path exclusions (runtime values). Assumption A1: labels returned by get_hash_binding_manifest name claims present in the store. Trusted base: ' + TRUSTED,
+   design='5/C01'),
+ 'C26': dict(
+   technique='MIR guarded-effect dominance + truth-condition (DNF) extraction + who-may-call over the resolved call graph + derived-cache coherence',
+   text=('Decides that the transport call of RestrictedResolver (sync and async) is dominated by the allow-list test on the forwarded request, the '
+         'structure of is_uri_allowed / HostPattern::matches truth conditions (pattern, host, port, scheme tests present on every true path), the '
+         'resolver stacking order, that no code outside the http layer constructs a transport, and that settings-derived resolver caches are reset when settings change.'),
+   note='Undecided: correctness of the string matching for all URIs. Trusted base: ' + TRUSTED,
+   design='5/C26'),
+ 'C27': dict(
+   technique='MIR loop/must-pass-through rules + truth/falsity-condition (DNF) extraction of the address predicates + guarded-effect dominance',
+   text=('Decides hop bound (0..=MAX_REDIRECTS, const <= 10, TooManyRedirects on exhaustion), that every re-issued hop passes redirect_target and '
+         'build_redirected_request, that Ok(Some(target)) needs allow_redirects and host_is_non_global(target)=false, that the address predicates return false '
+         'only after every std predicate named by the property is false, and that Host/Authorization/Cookie/Proxy-Authorization are never forwarded; same obligations for sync and async.'),
+   note='Undecided: mask constants (CGNAT, ULA, link-local) and exotic numeric notations are counted, not interpreted. Trusted base: ' + TRUSTED + '; std::net predicate semantics',
+   design='5/C27'),
 }
 
 NA_REASONS = {
